@@ -623,7 +623,7 @@ def match_locals(have, want) -> dict:
 
     rounds = 0
     progress = True
-    while progress and rounds < 12:
+    while (progress or rounds <= 4) and rounds < 12:
         rounds += 1
         progress = False
         wknown = {v: v for v in mapping.values()}
